@@ -484,7 +484,9 @@ def cmd_selftest_determinism(ids):
             bins.append(build_instrumented(True))
         for b in bins:
             digs = []
-            n = 64
+            # 1024 runs per process group: a first version with 64 missed a divergence that needed one particular
+            # task operation (MergeDB from a store iterating in Go map order) in about 1 run in 400
+            n = int(os.environ.get("VERIF_DET_RUNS", "1024"))
             for gmp in ("1", "4", "16"):
                 for rep in range(4):
                     racedir, renv = race_env()
